@@ -127,10 +127,17 @@ theorem script_keys_complete :
     ("init_state_processing", "init_state_processing") ∈ script.wiring := by
   decide +kernel
 
-/-- documented default of `"space"` is `None` = "a default grid whose units system is inherited from the
-system"; the constructor default in the source is the *object* `RDGridSpace()` (default units).  The
-difference is a finding of the harness oracle (key `default:system.space`), recorded here as what the source says. -/
-theorem system_space_default_in_source : ("space", some "RDGridSpace()") ∈ system.ctor := by decide +kernel
+/-- documented default of `"space"`: `None`, meaning "a default grid whose units system is inherited from the
+system".  The reader treats `None` as omitted and fills the constructor argument itself with exactly that grid
+(the reverse of repository fix 56b9e03 falls back to the constructor default `RDGridSpace()` in default units). -/
+theorem system_space_default_documented :
+    "space" ∈ system.noneAsOmitted ∧ ("space", "RDGridSpace(units_system=da[\"units_system\"])") ∈ system.readerDefault ∧
+    "space" ∉ system.mandatory := by decide +kernel
+
+/-- a trajectory file may lack a script (`RDTrajectory(..., script=None)` is the constructor default) -/
+theorem trajectory_script_optional :
+    "script" ∈ trajectory.optionalGet ∧ "script" ∉ trajectory.mandatory ∧ ("script", some "None") ∈ trajectory.ctor := by
+  decide +kernel
 
 /-! ## Part 2: the dictionary model (`Model/Dict.lean`: one generic reader / writer over a field schema) -/
 
